@@ -93,7 +93,8 @@ def mutate(draw, op, m, api):
         return op
     if k < 2:
         return None
-    j = draw(st.integers(1, k - 1))
+    # half of the time the malformed step is the LAST one (possibly several files after the first block)
+    j = k - 1 if draw(st.integers(0, 1)) else draw(st.integers(1, k - 1))
     if kind == "offsets-nonincreasing":
         op["d"][j] = d[j - 1] - (1 if d[j - 1] > 0 and draw(st.integers(0, 1)) else 0)
     elif kind == "indices-nonincreasing":
@@ -107,6 +108,23 @@ def mutate(draw, op, m, api):
             if op["g"][t] <= op["g"][t - 1]:
                 op["g"][t] = op["g"][t - 1] + (d[t] - d[t - 1]) + 1
     return op
+
+
+def multi_file_blocks(draw, cfg, nxt):
+    """A valid block description with one short block in each of 3-4 consecutive files."""
+    spf = rfmodel.samples_per_file_max(cfg)
+    nb = draw(st.integers(3, 4))
+    k = cfg["start"] + nxt + draw(st.integers(0, max(0, spf // 2)))
+    g, d, off = [], [], 0
+    for _ in range(nb):
+        ln = draw(st.integers(1, max(1, min(spf // 2, 20))))
+        g.append(k - cfg["start"])
+        d.append(off)
+        off += ln
+        # first sample of the next file, plus a small offset
+        hi = rfmodel.window(cfg, rfmodel.file_ms(cfg, k + ln - 1))[1]
+        k = max(hi, k + ln + 1) + draw(st.integers(0, max(0, spf // 3)))
+    return {"op": "b", "len": off, "g": g, "d": d}
 
 
 def why_invalid(m, op):
@@ -132,7 +150,9 @@ def histories(draw, tier, spf_cap=256):
         if want_invalid:
             # mutate a multi-block description where possible
             base = op
-            if op["op"] == "w" or len(op.get("g", [])) < 2:
+            if draw(st.integers(0, 2)) == 0:
+                base = multi_file_blocks(draw, cfg, m.next_avail)
+            elif op["op"] == "w" or len(op.get("g", [])) < 2:
                 alt, _ = S.draw_op(draw, cfg, m.next_avail, allow_blocks=True, allow_empty=False, max_files=2, max_blocks=4)
                 if alt["op"] == "b":
                     base = alt
